@@ -156,6 +156,7 @@ def tr_stub(msgid, domain=None, mapping=None, context=None,
     return "T(%s/%s)" % (domain, text)
 
 
+_CC: dict = {"active": {}, "overlap": False}
 _SUBDIR = re.compile(r"<root>/[^/\s]+/")
 
 
@@ -197,6 +198,25 @@ class C14(CheckBase):
         self.zt = zt
         self.TemplateLoader = TemplateLoader
         self.ModuleLoader = ModuleLoader
+        # harness-side bookkeeping (not a hook in the repository): were two
+        # threads ever inside cook_check of one instance at the same time?
+        from chameleon.template import BaseTemplateFile
+        if not getattr(BaseTemplateFile.cook_check, "_verif", False):
+            orig = BaseTemplateFile.cook_check
+
+            def cook_check(self_):
+                act = _CC["active"]
+                k = id(self_)
+                n = act.get(k, 0)
+                if n:
+                    _CC["overlap"] = True
+                act[k] = n + 1
+                try:
+                    return orig(self_)
+                finally:
+                    act[k] -= 1
+            cook_check._verif = True        # type: ignore[attr-defined]
+            BaseTemplateFile.cook_check = cook_check    # type: ignore
         for i in (11, 12):
             case = self.gen(Choices(i), "quick")
             self.run(case)
@@ -731,7 +751,8 @@ class C14(CheckBase):
                 def body(ops=ops, out=out):
                     for op in ops:
                         began = sched.step
-                        out.append([op, self.do_op(objs, op, box), began])
+                        r_ = self.do_op(objs, op, box)
+                        out.append([op, r_, began, sched.step])
                         done_ops[op[1]] += 1
                 sched.spawn("t%d" % ti, body, proc)
             if case.get("observer") and sub == "run":
@@ -790,7 +811,10 @@ class C14(CheckBase):
                     # (once the second replacement has happened, a thread
                     # that starts now gets the third version)
                     oe = obs_exp3[si] if wrote_at else obs_exp[si]
-                    if len(wrote_at) > w0 and r == obs_exp[si]:
+                    if len(wrote_at) > w0 and r is not None and (
+                            r == obs_exp[si] or (
+                                r[0] == "ok" and version_blind(r) ==
+                                version_blind(oe))):
                         oe = r      # (it happened during this very render)
                     if r is not None and r != oe:
                         observer_bad.append((sched.step, label, op, r, oe))
@@ -831,7 +855,7 @@ class C14(CheckBase):
                             "violations": [], "digest": log.digest(),
                             "events": log.count}
                 for out in dres:
-                    for op, r_, _b in out:
+                    for op, r_, _b, _e in out:
                         if r_ != exp[canonical(op)] and r_[0] == "exc" and \
                                 r_[1] in ("TypeError", "AttributeError") and \
                                 "yield_point" in str(r_):
@@ -896,6 +920,10 @@ class C14(CheckBase):
             text) is reported as usual."""
             if not wrote_at or not isinstance(got, list):
                 return sig
+            if not _CC["overlap"]:
+                # no two threads were ever reloading the instance at the
+                # same time: whatever went wrong is not that finding
+                return sig
             if got == v2 and got != v3:
                 return "stale-version-after-replace-during-use"
             if got[0] == "ok" and got != v3 and \
@@ -923,6 +951,8 @@ class C14(CheckBase):
                     ["load_render", si, sh["obs_name"], 90 + si]
                     if sh["kind"] == "loader" else ["render", si, 90 + si],
                     dict(reload, final=3)))
+        _CC["active"] = {}
+        _CC["overlap"] = False
         sched, objs, results = phase("run", pol)
         owned_lists = list(self._owned)
         for step, label, op, r, oe in observer_bad[:1]:
@@ -951,16 +981,22 @@ class C14(CheckBase):
         if wrote_at:
             stats["fired"]["midwrite"] = 1
         for ti, out in enumerate(results):
-            for op, r, began in out:
+            for op, r, began, ended in out:
                 stats["ops"] += 1
                 want = exp[canonical(op)]
                 if wrote_at:
                     # an operation that began after the second replacement
                     # must serve the third version; one that was under way
-                    # may serve either
+                    # may serve either - or, since a macro looked up in the
+                    # middle of a render checks the file again, parts of
+                    # both (nobody promises a snapshot to a render that
+                    # spans the replacement)
                     w3 = exp3[canonical(op)]
                     if began >= wrote_at[0] or r == w3:
                         want = w3
+                    elif ended >= wrote_at[0] and r[0] == "ok" and \
+                            version_blind(r) == version_blind(w3):
+                        want = r
                 # (verdicts, not texts: the log must not depend on the
                 # interpreter's hash seed - that axis is sub-check (b))
                 log.add("res", ti, canonical(op), r[0], r == want)
